@@ -36,27 +36,29 @@ type Writes interface {
 
 // Reads lets a check plug the real store in for list methods.
 type Reads struct {
-	GetAccountsWithVolumes func(ctx context.Context, q ledgerstore.GetAccountsQuery) (*sharedapi.Cursor[ledger.ExpandedAccount], error)
-	CountAccounts          func(ctx context.Context, q ledgerstore.GetAccountsQuery) (int, error)
-	GetAggregatedBalances  func(ctx context.Context, q ledgerstore.GetAggregatedBalanceQuery) (ledger.BalancesByAssets, error)
-	GetLogs                func(ctx context.Context, q ledgerstore.GetLogsQuery) (*sharedapi.Cursor[ledger.ChainedLog], error)
-	CountTransactions      func(ctx context.Context, q ledgerstore.GetTransactionsQuery) (int, error)
-	GetTransactions        func(ctx context.Context, q ledgerstore.GetTransactionsQuery) (*sharedapi.Cursor[ledger.ExpandedTransaction], error)
+	GetAccountsWithVolumes    func(ctx context.Context, q ledgerstore.GetAccountsQuery) (*sharedapi.Cursor[ledger.ExpandedAccount], error)
+	CountAccounts             func(ctx context.Context, q ledgerstore.GetAccountsQuery) (int, error)
+	GetAggregatedBalances     func(ctx context.Context, q ledgerstore.GetAggregatedBalanceQuery) (ledger.BalancesByAssets, error)
+	GetLogs                   func(ctx context.Context, q ledgerstore.GetLogsQuery) (*sharedapi.Cursor[ledger.ChainedLog], error)
+	CountTransactions         func(ctx context.Context, q ledgerstore.GetTransactionsQuery) (int, error)
+	GetTransactions           func(ctx context.Context, q ledgerstore.GetTransactionsQuery) (*sharedapi.Cursor[ledger.ExpandedTransaction], error)
+	GetAccountWithVolumes     func(ctx context.Context, q ledgerstore.GetAccountQuery) (*ledger.ExpandedAccount, error)
+	GetTransactionWithVolumes func(ctx context.Context, q ledgerstore.GetTransactionQuery) (*ledger.ExpandedTransaction, error)
 }
 
 type Ledger struct {
-	Name  string
-	B     *Backend
-	W     Writes
-	R     Reads
+	Name string
+	B    *Backend
+	W    Writes
+	R    Reads
 }
 
 type Backend struct {
-	mu      sync.Mutex
-	Calls   []Call
-	Ledgers map[string]*Ledger // existing ledgers
+	mu       sync.Mutex
+	Calls    []Call
+	Ledgers  map[string]*Ledger // existing ledgers
 	MkWrites func(name string) Writes
-	R       Reads
+	R        Reads
 }
 
 func New(existing ...string) *Backend {
@@ -141,6 +143,9 @@ var _ backend.Ledger = (*Ledger)(nil)
 
 func (l *Ledger) GetAccountWithVolumes(ctx context.Context, query ledgerstore.GetAccountQuery) (*ledger.ExpandedAccount, error) {
 	l.B.rec("GetAccountWithVolumes", l.Name, "")
+	if l.R.GetAccountWithVolumes != nil {
+		return l.R.GetAccountWithVolumes(ctx, query)
+	}
 	a := ledger.NewExpandedAccount(query.Addr)
 	return &a, nil
 }
@@ -205,6 +210,9 @@ func (l *Ledger) GetTransactions(ctx context.Context, query ledgerstore.GetTrans
 
 func (l *Ledger) GetTransactionWithVolumes(ctx context.Context, query ledgerstore.GetTransactionQuery) (*ledger.ExpandedTransaction, error) {
 	l.B.rec("GetTransactionWithVolumes", l.Name, "")
+	if l.R.GetTransactionWithVolumes != nil {
+		return l.R.GetTransactionWithVolumes(ctx, query)
+	}
 	return &ledger.ExpandedTransaction{Transaction: *ledger.NewTransaction()}, nil
 }
 
